@@ -456,6 +456,25 @@ pub fn gen_model(rng: &mut Rng, o: &GenOpts) -> Model {
             } else {
                 0
             };
+            // curtain wall: one window over the whole wall (net opaque area 0); windows larger than their wall are outside
+            // what the properties quantify over (the net area would be negative)
+            let curtain = bounds == EXTERIOR && tilt == 90.0 && rng.chance(1, 10);
+            if curtain {
+                let wall = m.walls[wi].id;
+                m.windows.push(Window {
+                    id: rng.uuid(),
+                    name: format!("{}_cortina", m.walls[wi].name),
+                    cons: m.cons.wincons[rng.below(m.cons.wincons.len())].id,
+                    wall,
+                    geometry: WinGeom {
+                        position: if o.positions { Some(point![0.0, 0.0]) } else { None },
+                        height: h,
+                        width: len,
+                        setback: 0.0,
+                    },
+                });
+            }
+            let nwin = if curtain { 0 } else { nwin };
             for k in 0..nwin {
                 let ww = rng.f(0.4, (len as f64 / 2.2).min(2.5).max(0.5), 2);
                 let wh = rng.f(0.4, (h as f64 - 1.0).min(2.0), 2);
